@@ -7,6 +7,8 @@ typedef unsigned long size_t;
 /* spec-level assertions are counted as contract obligations when their text starts with SPEC/LEMMA */
 #define SPEC_ASSERT(e, msg) __CPROVER_assert((e), "SPEC " msg)
 #define IS_NAN(x) ((x) != (x))
+/* equality of results that may be NaN: equal, or both NaN */
+#define FEQ(a, b) ((a) == (b) || (IS_NAN(a) && IS_NAN(b)))
 #define IS_FINITE(x) (!IS_NAN(x) && (x) <= 1.7976931348623157e308 && (x) >= -1.7976931348623157e308)
 int verif_thrown;   /* monotone "an exception was thrown" ghost flag (DESIGN 2.5) */
 #endif
